@@ -253,6 +253,38 @@ def _shallow_calls(e):
     return out
 
 
+def check_stamp(ctx):
+    """"the source is unchanged" and "the temporary is the file we wrote" are both decided by comparing FileStamps: the stamp has
+    to identify the file (device + inode), its length and its modification time, all read from one metadata call, compared by the
+    derived (field-wise) equality; read_regular must not follow a symlink and answers only for a regular file."""
+    inst = "C15.stamp"
+    b = ctx.fn("FileStamp::from_metadata", inst)
+    if b is not None:
+        lits = [n for n in b.nodes if n.kind == "assign" and n.ev.get("rv") == "agg" and (n.ev.get("adt") or "").endswith("migration::FileStamp")]
+        ctx.check(len(lits) == 1, inst, "anchor", b.path, "one FileStamp literal (found %d)" % len(lits), None)
+        want = {"len": "Metadata::len", "modified": "Metadata::modified", "device": "MetadataExt::dev", "inode": "MetadataExt::ino"}
+        for n in lits:
+            tr = A.tracer(b)
+            f = dict(zip(n.ev["fields"], [tr.operand(o) for o in n.ev["ops"]]))
+            for fld, callee in want.items():
+                v = f.get(fld)
+                ok = v is not None and v.has_call(callee) and any(x.k == "arg" and x.extra[0] == 1 for x in v.walk())
+                ctx.check(ok, inst, "PIN", b.path, "FileStamp.%s is %s of the metadata handed in" % (fld, callee.rsplit("::", 1)[-1]), b.where(n.id),
+                          {"expr": v.show()[:80] if v is not None else None})
+    eqs = [bb for bb in ctx.prog.product_bodies() if bb.impl_trait and bb.impl_trait.endswith("cmp::PartialEq") and (bb.impl_self or "").endswith("migration::FileStamp")]
+    ctx.check(len(eqs) == 1 and bool(eqs[0].raw.get("span", {}).get("exp")), inst, "PIN", "migration::FileStamp",
+              "FileStamp equality is the derived, field-wise one (no hand-written comparison that could skip a field)", None)
+    b = ctx.fn("FileStamp::read_regular", inst)
+    if b is not None:
+        sm = ctx.sites(b, R.call("fs::symlink_metadata"), inst, exact=1)
+        ctx.check(not R.call("fs::metadata")(b), inst, "FORBID", b.path, "read_regular never follows a symbolic link (symlink_metadata, not metadata)", None)
+        isf = ctx.sites(b, R.call("FileType::is_file"), inst, exact=1)
+        th = ctx.sites(b, R.call("bool::then"), inst, exact=1)
+        for t in th:
+            c = R.arg_expr(b, b.nodes[t], 0)
+            ctx.check(any(x.nid in isf for x in c.calls()), inst, "PROVENANCE", b.path, "a stamp is produced only for a regular file (`is_file().then(..)`)", b.where(t))
+
+
 def check_rollback(ctx):
     inst = "C15.rollback"
     b = ctx.fn("DestinationGuard::publish", inst)
@@ -562,6 +594,7 @@ def check_mask(ctx):
 
 
 def check(ctx):
+    check_stamp(ctx)
     check_batches(ctx)
     check_mask(ctx)
     check_ro(ctx)
